@@ -66,14 +66,23 @@ package latency
 //@   arith wrap
 //@   requires WinOK(w) && m != nil
 
-// Sliding keeps a suffix of the slots (the slots are in time order).
+// Sliding keeps a suffix of the slots. When the slots are in time order (they are appended with the
+// time of each refresh as their end), the suffix kept is exactly the slots that end inside the window:
+// no expired slot stays, and no slot that is still inside the window goes.
+//@ pred Expired(s *slot, ts time.Time, size time.Duration) := tinst(s.end) <= tinst(ts) + wrap64s(0 - size)
+//@ pred EndsOrdered(w *window) := forall a int, b int :: 0 <= a && a < b && b < len(w.slots) ==> tinst(w.slots[a].end) <= tinst(w.slots[b].end)
 //@ func (*window).slide
 //@   props C15 C12
 //@   arith wrap
 //@   requires WinOK(w)
 //@   modifies w.count, w.total, w.slots
 //@   invariant 0: 0 <= $i && 0 <= start && start <= $i && $i <= len(w.slots) && w.slots == old(w.slots) && WinOK(w)
+//@     && (old(EndsOrdered(w)) ==> (forall j int :: 0 <= j && j < start ==> Expired(w.slots[j], ts, w.size)) && (forall j int :: start <= j && j < $i ==> !Expired(w.slots[j], ts, w.size)))
+//@     && (old(EndsOrdered(w)) && start < $i ==> !Expired(w.slots[start], ts, w.size))
 //@   ensures WinOK(w) && len(w.slots) <= old(len(w.slots))
+//@   ensures [kept-slots-are-the-newest-in-order C15] forall j int :: 0 <= j && j < len(w.slots) ==> w.slots[j] == old(w.slots)[j + old(len(w.slots)) - len(w.slots)]
+//@   ensures [no-expired-slot-kept C15] old(EndsOrdered(w)) ==> (forall j int :: 0 <= j && j < len(w.slots) ==> !Expired(w.slots[j], ts, w.size))
+//@   ensures [only-expired-slots-evicted C15] old(EndsOrdered(w)) ==> (forall j int :: 0 <= j && j < old(len(w.slots)) - len(w.slots) ==> Expired(old(w.slots)[j], ts, w.size))
 //@ func (*window).isCovered
 //@   props C15 C12
 //@   requires WinOK(w)
